@@ -363,6 +363,9 @@ fn big_trees() -> Vec<Tree> {
     out.push(l(vec![l(vec![leaf(1), leaf(3)]), l(vec![leaf(5), leaf(7)]), l(vec![leaf(1), leaf(3)])]));
     // 33 elements with two-level sublists, a 20-deep nest, 101 equal atoms
     out.extend(crate::alpha::Alpha::large().codes);
+    // vector literals inside code: two long float vectors that differ in one middle element / in length
+    let fv = |n: usize, mid: f32| Tree::FV((0..n).map(|k| if k == n / 2 { mid } else { k as f32 + 0.5 }).collect());
+    out.push(l(vec![fv(40, 1.0), l(vec![fv(40, 2.0), a(1)]), fv(41, 1.0), Tree::IV((0..40).collect()), Tree::IV((0..40).map(|k| if k == 20 { -1 } else { k }).collect())]));
     out
 }
 
@@ -408,8 +411,61 @@ pub fn big(ctx: &mut Ctx) {
     }
 }
 
+/// pairs of DIFFERENT items that agree everywhere except in one detail far from both ends (the middle element
+/// of a long vector or list, the leaf of a deep nest, one element more): every two-operand CODE instruction,
+/// both operand orders, judged by the reference
+pub fn twins(ctx: &mut Ctx) {
+    let mut real = Real::new();
+    let fv = |n: usize, mid: f32| Tree::FV((0..n).map(|k| if k == n / 2 { mid } else { k as f32 + 0.5 }).collect());
+    let iv = |n: usize, mid: i32| Tree::IV((0..n as i32).map(|k| if k == n as i32 / 2 { mid } else { k }).collect());
+    let bv = |n: usize, mid: bool| Tree::BV((0..n).map(|k| if k == n / 2 { mid } else { k % 3 == 0 }).collect());
+    let wide = |n: usize, mid: i32| Tree::L((0..n as i32).map(|k| if k == n as i32 / 2 { Tree::I(mid) } else { Tree::I(k) }).collect());
+    let nest = |d: usize, leaf: i32| {
+        let mut t = Tree::L(vec![Tree::I(leaf)]);
+        for k in 0..d {
+            t = Tree::L(vec![Tree::I(k as i32), t]);
+        }
+        t
+    };
+    let mut pairs: Vec<(Tree, Tree)> = vec![];
+    for n in [33usize, 40, 70, 101] {
+        pairs.push((fv(n, 1.0), fv(n, 2.0)));
+        pairs.push((fv(n, 1.0), fv(n + 1, 1.0)));
+        pairs.push((iv(n, -1), iv(n, -2)));
+        pairs.push((bv(n, true), bv(n, false)));
+        pairs.push((wide(n, -1), wide(n, -2)));
+        pairs.push((Tree::L(vec![Tree::I(1), fv(n, 1.0)]), Tree::L(vec![Tree::I(1), fv(n, 2.0)])));
+    }
+    for d in [12usize, 20, 30] {
+        pairs.push((nest(d, 1), nest(d, 2)));
+    }
+    for (x, y) in &pairs {
+        for (a, b) in [(x, y), (y, x), (x, x)] {
+            let mut base = M::default();
+            base.c = vec![a.clone(), b.clone(), Tree::I(77)];
+            for name in ["CODE.=", "CODE.DISCREPANCY", "CODE.CONTAINS", "CODE.MEMBER", "CODE.POSITION", "CODE.CONTAINER"] {
+                run_step(ctx, &mut real, name, &base, none);
+            }
+            // EXEC.= compares the same way
+            let mut m2 = M::default();
+            m2.e = vec![a.clone(), b.clone()];
+            run_step(ctx, &mut real, "EXEC.=", &m2, none);
+            // the pattern occurs inside a list / does not occur (its twin does)
+            let mut m3 = M::default();
+            m3.c = vec![Tree::L(vec![Tree::I(5), b.clone(), Tree::I(6)]), a.clone()];
+            for name in ["CODE.CONTAINS", "CODE.MEMBER", "CODE.POSITION", "CODE.CONTAINER"] {
+                run_step(ctx, &mut real, name, &m3, none);
+            }
+            let mut m4 = M::default();
+            m4.c = vec![Tree::L(vec![Tree::I(5), b.clone(), Tree::I(6)]), Tree::I(0), a.clone()];
+            run_step(ctx, &mut real, "CODE.SUBST", &m4, none);
+        }
+    }
+}
+
 pub fn run(ctx: &mut Ctx) {
     match ctx.family.as_str() {
+        "twins" => twins(ctx),
         "big" => big(ctx),
         "deep" => deep(ctx),
         "unary" => unary(ctx),
